@@ -1,8 +1,10 @@
 package h
 
 import (
+	"bytes"
 	"fmt"
 	"reflect"
+	"unsafe"
 
 	"github.com/mlange-42/arche/ecs"
 	"github.com/mlange-42/arche/ecs/event"
@@ -30,6 +32,19 @@ func (l *recListener) Notify(w *ecs.World, e ecs.EntityEvent) {
 	}
 	r.Locked = w.IsLocked()
 	r.Held = s.open > 0 // the harness itself holds a query open at delivery time
+	// "after the change": components supplied with values hold those values when the event is delivered
+	if op := s.curOp; op != nil && op.Vals != nil && op.Ill == "" && e.EventTypes&(event.EntityRemoved) == 0 && w.Alive(e.Entity) {
+		for i, id := range op.Add {
+			if i >= len(op.Vals) || !e.Added.Get(s.IDs[id]) || s.M.Types[id].Size == 0 {
+				continue
+			}
+			p := w.Get(e.Entity, s.IDs[id])
+			want := s.M.Types[id].Pat(op.Vals[i])
+			if p == nil || !bytes.Equal(unsafe.Slice((*byte)(p), len(want)), want) {
+				r.ValueBad = fmt.Sprintf("component %d of %v does not hold the supplied value yet", id, e.Entity)
+			}
+		}
+	}
 	r.Alive = w.Alive(e.Entity)
 	if r.Alive {
 		m := w.Mask(e.Entity)
@@ -135,6 +150,10 @@ func (s *Sess) checkEvents(op *Op, exp []ExpEvent) {
 				return
 			}
 		} else {
+			if r.ValueBad != "" {
+				s.fail("event.value", "event delivered before the change was complete: %s", r.ValueBad)
+				return
+			}
 			if r.Locked && !r.Held && s.open == 0 {
 				s.fail("event.locked", "event for %v delivered with the world locked", e)
 				return
